@@ -197,7 +197,22 @@ func (c *Ctx) layersEl(ls []xLayer, depth int) *etree.Element {
 		}
 	}
 	if l.cert != "" || len(ls) > 1 {
-		ki := el.CreateElement("ds:KeyInfo")
+		// the XML-Signature elements under any prefix the document chooses, or in a default namespace
+		dsn := func(local string) string { return "ds:" + local }
+		var ki *etree.Element
+		switch c.kiPrefix {
+		case "", "ds":
+			ki = el.CreateElement("ds:KeyInfo")
+		case "none":
+			dsn = func(local string) string { return local }
+			ki = el.CreateElement("KeyInfo")
+			ki.CreateAttr("xmlns", "http://www.w3.org/2000/09/xmldsig#")
+		default:
+			pfx := c.kiPrefix
+			dsn = func(local string) string { return pfx + ":" + local }
+			ki = el.CreateElement(pfx + ":KeyInfo")
+			ki.CreateAttr("xmlns:"+pfx, "http://www.w3.org/2000/09/xmldsig#")
+		}
 		if l.cert != "" {
 			var txt string
 			switch l.cert {
@@ -210,7 +225,7 @@ func (c *Ctx) layersEl(ls []xLayer, depth int) *etree.Element {
 			default:
 				txt = "bm90IGEgY2VydGlmaWNhdGU="
 			}
-			ki.CreateElement("ds:X509Data").CreateElement("ds:X509Certificate").SetText(txt)
+			ki.CreateElement(dsn("X509Data")).CreateElement(dsn("X509Certificate")).SetText(txt)
 		}
 		if len(ls) > 1 {
 			ki.AddChild(c.layersEl(ls[1:], depth+1))
@@ -683,6 +698,24 @@ func (c *Ctx) genC10() {
 			}
 		}
 	}
+	// (iv-a) AES-128-GCM decryption of what a conforming peer sends (no padding): every length 0..4 blocks+1, and at the
+	// block-aligned lengths every kind of final byte (a value that looks like padding, zero, large)
+	for n := 0; n <= 65; n++ {
+		finals := []int{-1}
+		if n > 0 && n%16 == 0 {
+			finals = []int{-1, 0x00, 0x01, 0x02, 0x0a, 0x0d, 0x0f, 0x10, 0x11, 0x20, 0xff}
+		}
+		for _, fb := range finals {
+			key, nonce, p := c.randBytes(16), c.randBytes(12), c.randBytes(n)
+			if fb >= 0 {
+				p[n-1] = byte(fb)
+			}
+			blk, _ := aes.NewCipher(key)
+			g, _ := cipher.NewGCM(blk)
+			ct := append(append([]byte{}, nonce...), g.Seal(nil, nonce, p, nil)...)
+			c.xdecrypt(xKey{kind: "b", bytes: key}, []xLayer{{alg: sp(uriGCM), cipher: "v", ct: ct}}, p, "gcm-decrypt-reference-lengths")
+		}
+	}
 	// (iv) AES-128-GCM: decryption of well-formed values (reference-made), and the encryption defect
 	for n := 0; n <= 40; n += 3 {
 		key, nonce, p := c.randBytes(16), c.randBytes(12), c.randBytes(n)
@@ -819,6 +852,32 @@ func (c *Ctx) genC11() {
 		}
 	}
 	// structure-aware mutation of valid two-layer elements
+	// the embedded certificate under every way of writing the XML-Signature namespace × every kind of certificate, on an
+	// otherwise valid message: only a matching (or absent) certificate may lead to a plaintext
+	for _, pfx := range []string{"ds", "dsig", "x", "none"} {
+		for _, cert := range []string{"", "match", "mismatch", "garbage", "ecdsa"} {
+			for _, kt := range []string{uriOAEP, uriPKCS} {
+				ck := c.randBytes(16)
+				p := []byte("<a>embedded certificate</a>")
+				ct := refCBCEncrypt(ck, 16, c.randBytes(16), p)
+				pub := c.key("sp").Cert.PublicKey.(*rsa.PublicKey)
+				var wrapped []byte
+				if kt == uriPKCS {
+					wrapped, _ = rsa.EncryptPKCS1v15(&detReader{c: c}, pub, ck)
+				} else {
+					wrapped, _ = rsa.EncryptOAEP(sha1.New(), &detReader{c: c}, pub, ck, nil)
+				}
+				ls := []xLayer{{alg: sp(uriAES128), cipher: "v", ct: ct}, {alg: sp(kt), digest: sp(uriSHA1), cert: cert, cipher: "v", ct: wrapped}}
+				if kt == uriPKCS {
+					ls[1].digest = nil
+				}
+				c.kiPrefix = pfx
+				c.count("c11-keyinfo-prefix", pfx+"/"+cert)
+				c.xdecrypt(xKey{kind: "r", id: 1}, ls, nil, "keyinfo-prefix:"+pfx)
+				c.kiPrefix = ""
+			}
+		}
+	}
 	algs := []*string{nil, sp(""), sp("urn:unknown"), sp(uriAES128), sp(uriAES256), sp(uri3DES), sp(uriGCM), sp(uriOAEP), sp(uriOAEP11), sp(uriPKCS), sp("urn:verif:toy-cbc8"), sp("urn:verif:toy-cbc16")}
 	dgs := []*string{nil, sp(uriSHA1), sp(uriSHA256), sp(uriSHA512), sp(uriRIPEMD), sp("urn:unknown-digest"), sp("")}
 	certs := []string{"", "match", "mismatch", "garbage", "ecdsa"}
